@@ -8,6 +8,8 @@ import (
 	"sort"
 	"strings"
 
+	"golang.org/x/text/encoding/charmap"
+
 	"github.com/nlnwa/whatwg-url/canonicalizer"
 	"github.com/nlnwa/whatwg-url/errors"
 	"github.com/nlnwa/whatwg-url/url"
@@ -46,15 +48,22 @@ func propStream(name string, r *Rand, n int, o *Out) bool {
 		streamC01(r, n, o)
 	case "C02":
 		streamC02(r, n, o)
+	case "C03X":
 	case "C03":
-		streamCorpusChecked(o, "C03")
+		// histories run on the Go code only (oracle after every step); the correspondence cases are the reached states:
+		// their serialization (LOBS) and the parse of that serialization
+		stateOut = o
+		streamCorpusChecked(nil, "C03")
+		setterPairs(r, n, func(h *Hist) {}, "C03")
 		for i := 0; i < n; i++ {
-			o.EmitHist("h", randomHistory(r.Fork(), defaultHist("C03")))
+			randomHistory(r.Fork(), defaultHist("C03"))
 		}
 	case "C04":
-		streamCorpusChecked(o, "C04")
+		stateOut = o
+		streamCorpusChecked(nil, "C04")
+		setterPairs(r, n, func(h *Hist) {}, "C04")
 		for i := 0; i < n; i++ {
-			o.EmitHist("h", randomHistory(r.Fork(), defaultHist("C04")))
+			randomHistory(r.Fork(), defaultHist("C04"))
 		}
 	case "C05":
 		streamC05(r, n, o)
@@ -83,11 +92,12 @@ func propStream(name string, r *Rand, n int, o *Out) bool {
 	case "C18":
 		streamC18(r, n, o)
 	case "C19":
-		streamCorpusChecked(o, "C19")
+		stateOut = o
+		streamCorpusChecked(nil, "C19")
 		for i := 0; i < n; i++ {
 			ho := defaultHist("C19")
 			ho.Clone = true
-			o.EmitHist("h", randomHistory(r.Fork(), ho))
+			randomHistory(r.Fork(), ho)
 		}
 	default:
 		return false
@@ -103,7 +113,9 @@ func streamCorpusChecked(o *Out, prop string) {
 		} else {
 			h.ParsePkg(c.Input)
 		}
-		o.EmitHist("w", h)
+		if o != nil {
+			o.EmitHist("w", h)
+		}
 	}
 	for name, l := range loadSetterWPT() {
 		k := setterIndex(name)
@@ -115,7 +127,9 @@ func streamCorpusChecked(o *Out, prop string) {
 			if u := h.ParsePkg(c.Href); u >= 0 {
 				h.Set(u, k, c.NewValue)
 			}
-			o.EmitHist("s", h)
+			if o != nil {
+				o.EmitHist("s", h)
+			}
 		}
 	}
 }
@@ -242,27 +256,7 @@ func streamC02Subsets(r *Rand, o *Out, stride int) {
 
 func streamC05(r *Rand, n int, o *Out) {
 	streamCorpus(o)
-	starts := []string{"http://h/", "https://u:p@h:8/a/b?q#f", "file:///C:/x", "file://h/x", "sc://h/p", "sc:/p", "sc:opaque", "sc://", "ftp://h:21/", "ws://h", "sc:opaque ?q#f", "sc:/.//p", "http://[::1]/", "http://1.2.3.4:80/"}
-	// every ordered pair of setters on a pool of start URLs, with boundary values
-	vals := [][]string{{"file", "http:", "sc", "wss", "1x", ""}, {"u", "", "é:@"}, {"p", "", "/:"}, {"h2:99", "", "[::1]", "h3/x", "1.2.3", "a b", "h:99999"},
-		{"h2", "", "x:8", "0x7f.1", "xn--a"}, {"80", "", "8080x", "65536", "443", "0", "a"}, {"/x/../y", "", "a b", "//x", "C|/"}, {"q=1", "", "?a b'", "#"}, {"f", "", "#g h", "`"}}
-	cnt := 0
-	for _, st := range starts {
-		for s1 := 0; s1 < 9; s1++ {
-			for s2 := 0; s2 < 9; s2++ {
-				cnt++
-				if cnt%3 != int(r.s%3) && n < 50000 {
-					continue // quick tier: a third of the pairs per run (rotates with the seed)
-				}
-				h := &Hist{}
-				if k := h.ParsePkg(st); k >= 0 {
-					h.Set(k, s1, vals[s1][(cnt/7)%len(vals[s1])])
-					h.Set(k, s2, vals[s2][(cnt/3)%len(vals[s2])])
-				}
-				o.EmitHist("q", h)
-			}
-		}
-	}
+	setterPairs(r, n, func(h *Hist) { o.EmitHist("q", h) }, "")
 	for i := 0; i < n; i++ {
 		rr := r.Fork()
 		ho := defaultHist()
@@ -814,6 +808,38 @@ func streamC10(r *Rand, n int, o *Out) {
 		return true
 	}
 	p := defaultCfg.Parser
+	// the codec under the options that change it: single-percent-sign encoding and the encoding override
+	cfgPct := newCfg("pctSingle", url.NewParser(url.WithPercentEncodeSinglePercentSign()), 0, 0)
+	optCfgs := []*Cfg{cfgPct, newCfg("latin1", url.NewParser(url.WithEncodingOverride(charmap.ISO8859_1)), 0, 0),
+		newCfg("pctSingle+latin1", url.NewParser(url.WithPercentEncodeSinglePercentSign(), url.WithEncodingOverride(charmap.ISO8859_1)), 0, 0)}
+	for i := 0; i < n; i++ {
+		rr := r.Fork()
+		set := sets[rr.N(6)].set
+		s := rr.Pick([]string{"", "a", "é", "日本", "\U0001F600", "ab", "j\u00f6rg"}) + rr.Pick([]string{"%41", "%4", "%", "%zz", "%C3%A9", "%%41", "%é41", "%4é"}) +
+			rr.Pick([]string{"", "x", "é", "%42", "%"}) + rr.Pick(userPool)
+		for _, c := range optCfgs {
+			e1 := c.Parser.PercentEncodeString(s, set)
+			leafSimple(o, "LENC", c.Tok+" "+setTok(set)+" "+xs(s), xs(e1))
+			leafSimple(o, "LDEC", c.Tok+" "+xs(e1), xs(url.VerifDecodePercentEncoded(c.Parser, e1)))
+		}
+		// with single-percent-sign encoding an existing well-formed escape stays untouched and a lone '%' becomes %25
+		orc.Eval("C10")
+		var want strings.Builder
+		rs := []rune(scalar(s))
+		for k, ch := range rs {
+			lone := ch == '%' && !(k+2 < len(rs) && rs[k+1] < 0x80 && rs[k+2] < 0x80 && isHexByte(byte(rs[k+1])) && isHexByte(byte(rs[k+2])))
+			if lone || set.RuneShouldBeEncoded(ch) {
+				for _, b := range []byte(string(ch)) {
+					want.WriteString(fmt.Sprintf("%%%02X", b))
+				}
+			} else {
+				want.WriteRune(ch)
+			}
+		}
+		if got := cfgPct.Parser.PercentEncodeString(s, set); got != want.String() {
+			orc.Fail("C10", "encode-shape-single-percent", fmt.Sprintf("encode(%s) = %s, expected %s", q(s), q(got), q(want.String())), "LENC "+cfgPct.Tok+" "+setTok(set)+" "+xs(s))
+		}
+	}
 	for i := 0; i < n; i++ {
 		rr := r.Fork()
 		base := sets[rr.N(6)].set
@@ -968,6 +994,15 @@ func streamC11(r *Rand, n int, o *Out) {
 		if rr.P(40) {
 			qs += "&" + rr.Pick(queryPool)
 		}
+		if i%5 == 0 {
+			// long lists with few distinct names: stability of a sort only shows beyond the small-slice fast paths
+			np := 13 + rr.N(40)
+			parts := make([]string, np)
+			for j := range parts {
+				parts[j] = rr.Pick([]string{"b", "a", "c", "a", "b"}) + "=" + fmt.Sprint(j)
+			}
+			qs = strings.Join(parts, "&")
+		}
 		k := h.ParsePkg("http://h/?" + qs)
 		if k < 0 {
 			o.EmitHist("s", h)
@@ -983,12 +1018,19 @@ func streamC11(r *Rand, n int, o *Out) {
 			orc.Fail("C11", "urlencoded-parse", fmt.Sprintf("query %s parsed as %q, expected %q", q(u.Query()), pairsOf(sp), ref), strings.Join(h.ops, " ; "))
 		}
 		nops := rr.N(7)
+		if i%5 == 0 {
+			nops = 1 + rr.N(3)
+		}
 		for j := 0; j < nops; j++ {
 			name, val := rr.Pick(spNames), rr.Pick(spValues)
 			if len(ref) > 0 && rr.P(50) {
 				name = ref[rr.N(len(ref))][0]
 			}
-			switch rr.N(8) {
+			opk := rr.N(8)
+			if i%5 == 0 && j == 0 {
+				opk = 5 + rr.N(2)
+			}
+			switch opk {
 			case 0, 1:
 				h.QAppend(s, name, val)
 				ref = append(ref, [2]string{name, val})
@@ -1388,5 +1430,34 @@ func streamC15(r *Rand, n int, o *Out) {
 			}
 		}
 		o.EmitHist("e", h)
+	}
+}
+
+// every ordered pair of setters on a pool of start URLs, with boundary values (a third of the pairs per quick run,
+// rotating with the seed); `check` names the per-state oracle to evaluate, `emit` receives every executed history
+func setterPairs(r *Rand, n int, emit func(h *Hist), check string) {
+	starts := []string{"http://h/", "https://u:p@h:8/a/b?q#f", "file:///C:/x", "file://h/x", "sc://h/p", "sc:/p", "sc:opaque", "sc://", "ftp://h:21/", "ws://h", "sc:opaque ?q#f", "sc:/.//p", "http://[::1]/", "http://1.2.3.4:80/",
+		"sc://example.net:0/path", "https://h:0/p", "sc://u@h:0", "http://localhost/C|/x"}
+	vals := [][]string{{"file", "http:", "sc", "wss", "1x", ""}, {"u", "", "é:@"}, {"p", "", "/:"}, {"h2:99", "", "[::1]", "h3/x", "1.2.3", "a b", "h:99999", "h:0"},
+		{"h2", "", "x:8", "0x7f.1", "xn--a", "localhost"}, {"80", "", "8080x", "65536", "443", "0", "a"}, {"/x/../y", "", "a b", "//x", "C|/"}, {"q=1", "", "?a b'", "#"}, {"f", "", "#g h", "`"}}
+	cnt := 0
+	for _, st := range starts {
+		for s1 := 0; s1 < 9; s1++ {
+			for s2 := 0; s2 < 9; s2++ {
+				cnt++
+				if cnt%3 != int(r.s%3) && n < 50000 {
+					continue
+				}
+				h := &Hist{}
+				if check != "" {
+					h.Check = map[string]bool{check: true}
+				}
+				if k := h.ParsePkg(st); k >= 0 {
+					h.Set(k, s1, vals[s1][(cnt/7)%len(vals[s1])])
+					h.Set(k, s2, vals[s2][(cnt/3)%len(vals[s2])])
+				}
+				emit(h)
+			}
+		}
 	}
 }
